@@ -87,17 +87,24 @@ def child(tier):
     refbad = []
     from .. import common as _common
     group = None
+    measured = 0  # measured horizon hits in this child; after 9 (three exhausted groups) the rest of the enumeration is skipped:
+    #               a change that hangs in one zone must yield a verdict in minutes, not exhaust the child's time limit
     for idx, (key, raw) in enumerate(cases(tier)):
+        if measured >= 9:
+            out.append("SKIPPED")
+            continue
         if key[:2] != group:  # the horizon fast-fail budget is per (timeframe, base date), not for the whole child
             group = key[:2]
             _common._HORIZON_HITS[0] = 0
         try:
-            with deadline(5):
+            with deadline(3):
                 got = execute(raw, key[0], key[4], key[5])
             d = hashlib.sha1(repr(got).encode()).hexdigest()[:16]
         except BaseException as e:
             d = "RAISED:" + type(e).__name__
             got = None
+            if isinstance(e, _common.Horizon) and not _common._SKIPPED[0]:
+                measured += 1
         out.append(d)
         if zone == "UTC" and got is not None:
             ref = R.collapse(raw, A.tf_seconds(key[0]))
@@ -170,6 +177,9 @@ def main(prop, tier):
         rep.violation(f"C18|utc!=reference|{key[0][0]}|{key[4]}", {"zone": "UTC", "key": key, "raw": raw, "oracle": "reference"})
     for z, r in zip(ZONES[1:], res[1:]):
         for idx, (d, u) in enumerate(zip(r["digests"], utc["digests"])):
+            if d == "SKIPPED" or u == "SKIPPED":
+                rep.inc("skipped_after_horizon")
+                continue
             rep.inc("executions")
             if d != u:
                 key, raw = allcases[idx]
@@ -186,7 +196,7 @@ def main(prop, tier):
     rule = ("every (timeframe, base date incl. DST transition days, first-candle offset, gap word, host, supply) case is executed once "
             "in a separate process per zone; digests of the collapsed candles must be identical to the UTC child's, and the UTC child's equal "
             "to the reference; non-trivial = distinct case in which at least two candles share a bucket")
-    return finish(prop, tier, rep, t0, rule=rule,
+    return finish(prop, tier, rep, t0, rule=rule, exhaustive=not rep.n.get("skipped_after_horizon"),
                   bounds={"zones": ZONES, "timeframes": spaces(tier)["tfs"], "bases": BASES, "n": spaces(tier)["n"], "gaps": GAPS, "firsts": FIRSTS},
                   replay_confirm=replay, assumptions=["tzdata of the image; listed zones only", "timezone-naive timestamps"])
 
